@@ -205,3 +205,56 @@ func c18(deadline time.Time) (int, int) {
 	}
 	return runs, len(srcs)
 }
+
+func init() { Passes["C08"] = c08 }
+
+// c08: many goroutines, each with its own context, run programs that mutate every piece
+// of per-context state they can reach; all of them execute the SAME code objects.
+func c08(deadline time.Time) (int, int) {
+	py.RegisterModule(&py.ModuleImpl{
+		Info:    py.ModuleInfo{Name: "c08racemod", FileDesc: "<c08racemod>"},
+		CodeSrc: "counter = 0\nitems = []\ndef bump():\n    global counter\n    counter = counter + 1\n",
+	})
+	srcs := []string{
+		"x = TAG\nfor i in range(20):\n    x = x + i\n",
+		"import sys\nsys.path.append('p' + str(TAG))\nsys.argv.append(str(TAG))\n",
+		"import builtins\ndef mylen(x):\n    return TAG\nbuiltins.len = mylen\ny = len([1])\n",
+		"import math\nmath.pi = TAG\nmath.leak = TAG\ny = math.sqrt(4)\n",
+		"import c08racemod\nc08racemod.counter = c08racemod.counter + TAG\nc08racemod.items.append(TAG)\nc08racemod.bump()\n",
+		"class A:\n    v = 1\n    def get(self):\n        return self.v\nA.v = TAG\ny = A().get()\n",
+		"def mk(n):\n    def g():\n        i = 0\n        while i < 3:\n            yield n + i\n            i = i + 1\n    return g\ny = sum(mk(TAG)())\nz = [i * 2 for i in range(5)]\n",
+		"s = 'a,b,c'.split(',')\nd = {'k': TAG}\nd['j'] = 2\nt = sorted([3, 1, 2])\nu = str(TAG) + repr((1, 2.5, 'x'))\n",
+		"try:\n    raise KeyError(TAG)\nexcept LookupError as e:\n    y = 1\nfinally:\n    z = 2\n",
+	}
+	var codes []*py.Code
+	for i, s := range srcs {
+		c, err := py.Compile(s, fmt.Sprintf("<c08race%d>", i), py.ExecMode, 0, true)
+		if err != nil {
+			panic(err)
+		}
+		codes = append(codes, c)
+	}
+	runs := 0
+	for round := 0; round == 0 || time.Now().Before(deadline); round++ {
+		var wg sync.WaitGroup
+		for g := 0; g < 8; g++ {
+			wg.Add(1)
+			go func(g int) {
+				defer wg.Done()
+				ctx := py.NewContext(py.ContextOpts{SysArgs: []string{"prog"}, SysPaths: []string{"."}})
+				defer ctx.Close()
+				for k := range codes {
+					c := codes[(k+g)%len(codes)]
+					gl := py.StringDict{"TAG": py.Int(g + 1)}
+					if _, err := ctx.RunCode(c, gl, gl, nil); err != nil {
+						fmt.Fprintf(os.Stderr, "WARNING: DATA RACE (observed as an unexpected exception in an isolated context): %v\n", err)
+						os.Exit(66)
+					}
+				}
+			}(g)
+		}
+		wg.Wait()
+		runs += 8 * len(codes)
+	}
+	return runs, len(codes)
+}
